@@ -153,6 +153,67 @@ theorem flat_instance_is_lifted_tree (root : Str) (lists : List Str) (rows : Lis
   rw [hi, hall]
   exact instance_is_tree root _
 
+/-! ### code-shaped paths = paths of the lifted tree -/
+
+theorem bindPathsL_append' (pre : List Str) (a b : List Item) :
+    bindPathsL pre (a ++ b) = bindPathsL pre a ++ bindPathsL pre b := by
+  induction a with
+  | nil => simp [bindPathsL]
+  | cons x xs ih => simp [bindPathsL, ih]
+
+theorem bodyPathsL_append' (pre : List Str) (a b : List Item) :
+    bodyPathsL pre (a ++ b) = bodyPathsL pre a ++ bodyPathsL pre b := by
+  induction a with
+  | nil => simp [bodyPathsL]
+  | cons x xs ih => simp [bodyPathsL, ih]
+
+mutual
+theorem bindPathsF_eq_lift : (it : FItem) → (pre : List Str) → bindPathsF pre it = bindPathsL pre (liftItem it)
+  | .q d, pre => by simp [bindPathsF, liftItem, bindPathsL, bindPaths]
+  | .sec ct n b fl ks, pre => by
+    cases fl
+    · simp [bindPathsF, liftItem, bindPathsL, bindPaths, bindPathsFL_eq_lift ks (pre ++ [n])]
+    · simp [bindPathsF, liftItem, bindPathsFL_eq_lift ks pre]
+/-- **No bind and no path segment for a flat group**: walking the flat-aware tree as `xml_bindings` / `get_xpath` do
+    gives exactly the bind nodesets of the lifted tree. -/
+theorem bindPathsFL_eq_lift : (its : List FItem) → (pre : List Str) → bindPathsFL pre its = bindPathsL pre (liftL its)
+  | [], pre => by simp [bindPathsFL, liftL, bindPathsL]
+  | k :: ks, pre => by
+    simp [bindPathsFL, liftL, bindPathsL_append', bindPathsF_eq_lift k pre, bindPathsFL_eq_lift ks pre]
+end
+
+mutual
+theorem bodyPathsF_eq_lift : (it : FItem) → (pre : List Str) → bodyPathsF pre it = bodyPathsL pre (liftItem it)
+  | .q d, pre => by simp [bodyPathsF, liftItem, bodyPathsL, bodyPaths]
+  | .sec ct n b fl ks, pre => by
+    cases fl
+    · cases ct <;> simp [bodyPathsF, liftItem, bodyPathsL, bodyPaths, bodyPathsFL_eq_lift ks (pre ++ [n])]
+    · simp [bodyPathsF, liftItem, bodyPathsFL_eq_lift ks pre]
+/-- **No ref and no path segment for a flat group**: walking the flat-aware tree as `xml_control` / `get_xpath` do
+    gives exactly the body refs of the lifted tree. -/
+theorem bodyPathsFL_eq_lift : (its : List FItem) → (pre : List Str) → bodyPathsFL pre its = bodyPathsL pre (liftL its)
+  | [], pre => by simp [bodyPathsFL, liftL, bodyPathsL]
+  | k :: ks, pre => by
+    simp [bodyPathsFL, liftL, bodyPathsL_append', bodyPathsF_eq_lift k pre, bodyPathsFL_eq_lift ks pre]
+end
+
+/-- the driver's answer (`shapeOut`) is the accepted output itself -/
+theorem shapeOut_eq (root : Str) (lists : List Str) (rows : List Cells) (settings : Cells) (o : FlatOut)
+    (h : formOutFlat root lists rows settings = .ok o) : shapeOut root rows settings o = o := by
+  obtain ⟨all, _, _, _, _, hall, _, hb, hbody⟩ := formOutFlat_ok root lists rows settings o h
+  cases o with
+  | mk items inst binds body =>
+    simp only [shapeOut] at *
+    rw [bindPathsFL_eq_lift, bodyPathsFL_eq_lift, ← hall, ← hb, ← hbody]
+
+/-- **Closure of what the driver reports** (code-shaped bind nodesets / body refs against the instance). -/
+theorem refs_resolve_flat_shape (root : Str) (lists : List Str) (rows : List Cells) (settings : Cells) (o : FlatOut)
+    (h : formOutFlat root lists rows settings = .ok o) :
+    ∀ p ∈ (shapeOut root rows settings o).binds ++ (shapeOut root rows settings o).body,
+      resolves (shapeOut root rows settings o).inst p = true := by
+  rw [shapeOut_eq root lists rows settings o h]
+  exact refs_resolve_flat root lists rows settings o h
+
 /-! ### Non-vacuity -/
 
 def exFlat : List Cells := [
@@ -175,6 +236,11 @@ example : (match formOutFlat "data".toList [] exFlat [] with
     | .ok o => (o.binds ++ o.body).all (resolves o.inst) &&
         (o.binds.map xpathStr).contains "/data/g/c".toList && (o.body.map xpathStr).contains "/data/g/b".toList &&
         !((o.binds ++ o.body).map xpathStr).contains "/data/g/f".toList && o.binds.length == 5 && o.body.length == 7
+    | .error _ => false) = true := by decide +kernel
+
+example : (match formOutFlat "data".toList [] exFlat [] with
+    | .ok o => ((shapeOut "data".toList exFlat [] o).binds.map xpathStr).contains "/data/g/c".toList &&
+        (shapeOut "data".toList exFlat [] o).body == o.body && (shapeOut "data".toList exFlat [] o).binds == o.binds
     | .error _ => false) = true := by decide +kernel
 
 -- a clash seen only through the flat group (g/b beside g/f/b) is rejected
